@@ -336,13 +336,52 @@ Theorem C19_second_cycle_whole : forall f n ls ind sd iv r1 n2 ls2 sd2 iv2,
 Proof. exact second_cycle_whole. Qed.
 Print Assumptions C19_second_cycle_whole.
 
-(* LEFT (DESIGN 8.1 rung 3): the CLOSURE of the side conditions, i.e. deriving the eight hypotheses about
-   f2 = to_file r1 in C19_second_cycle_whole from those about f.  The variable part would follow from
-   C19_spec_fixed_point and C19_print_idempotent; the attribute part needs an invariant on the attribute
-   list carried through the header loop (INDEPENDENT_VARIABLE and SDATE present, every key stripped and
-   free of line breaks), which C19_header_state_machine leaves existential.  The hypotheses are boolean,
-   are evaluated by vm_compute on the file below and hold on every generated in-domain case (F and S on
-   the second cycle). *)
+(* VARIABLE PART OF THE CLOSURE: the file that is read back (refile A f ind iv = to_file of the result,
+   whatever its attribute list A) satisfies every variable-dependent side condition the original satisfied:
+   names / units / codes clean, equal lengths, distinct names, time-like first column, spec_ok, no line break
+   in the variable-dependent header strings.  (fmt6e idempotence + the shape of the specification.) *)
+Theorem C19_side_conditions_closed_vars : forall A f ind iv,
+  find_var ind f = Some iv -> vars_ok f ind iv = true ->
+  find_var ind (refile A f ind iv) = Some (revar iv) /\ vars_ok (refile A f ind iv) ind (revar iv) = true.
+Proof. exact side_conditions_closed_vars. Qed.
+Print Assumptions C19_side_conditions_closed_vars.
+
+(* the file read back is refile A f ind iv *)
+Theorem C19_read_back_file : forall f ind iv sp n A,
+  indep_name f = Some ind -> find_var ind f = Some iv -> spec_roundtrip f = Some sp ->
+  to_file (RFile n A sp) = refile A f ind iv.
+Proof. exact to_file_refile. Qed.
+Print Assumptions C19_read_back_file.
+
+(* SECOND CYCLE ON WHOLE FILES, hypotheses on f plus only four ATTRIBUTE facts about the file read back
+   (INDEPENDENT_VARIABLE and SDATE present; the fixed attribute lines and the comment keys free of line
+   breaks; no comment line starting with a blank): write . read . write . read = write . read. *)
+Theorem C19_second_cycle_whole_attrs : forall f n ls ind sd iv r1 sd2,
+  impl_write f = Some (n, ls) ->
+  indep_name f = Some ind -> get_attr (s2z "SDATE") (f_attrs f) = Some sd -> find_var ind f = Some iv ->
+  forallb no_nl (hdr_other f ind sd) = true ->
+  header_ok f ind = true -> data_ok f ind iv = true -> spec_ok f ind iv = true ->
+  impl_roundtrip f = Some r1 ->
+  let f2 := to_file r1 in
+  indep_name f2 = Some ind -> get_attr (s2z "SDATE") (f_attrs f2) = Some sd2 ->
+  forallb no_nl (hdr_attrs f2 sd2) = true -> attr_lines_ok f2 = true ->
+  exists r2, impl_second f = Some r2 /\ r_vars r2 = r_vars r1 /\ spec_roundtrip f = Some (r_vars r1).
+Proof. exact second_cycle_whole_attrs. Qed.
+Print Assumptions C19_second_cycle_whole_attrs.
+
+(* LEFT (DESIGN 8.1 rung 3): the ATTRIBUTE part of the closure, i.e. deriving the four attribute facts of
+   C19_second_cycle_whole_attrs from f.  It needs an invariant on the attribute list carried through the
+   header loop, which C19_header_state_machine leaves existential (exists A):
+     (1) after line 9, get_attr INDEPENDENT_VARIABLE = first comma field of line 9 (= ind for the writer's
+         line, by the argument of C19_line9_units), after line 7 get_attr SDATE = Some _, and no later
+         set_attr overwrites them: the keys parsed from the comment lines must differ from these two, which
+         for the writer's lines follows from C19_user_line (parsed key = written key, for colon-free stripped
+         keys) and from myattrs excluding the ignore list;
+     (2) every key is a strip() result or a constant, hence free of line breaks and not starting with a blank,
+         and every value of the fixed keys is a strip() / join of strip() of a header line, hence free of line
+         breaks (lemmas needed: strip s is an infix of s; set_attr preserves the invariant).
+   The four facts are boolean, hold on the file below (vm_compute) and on every generated in-domain case
+   (F and S compare the second cycle). *)
 Example C19_header_hypotheses_inhabited :
   header_ok w_good (s2z "t") = true /\ forallb no_nl (hdr_other w_good (s2z "t") (s2z "2020, 01, 02")) = true
   /\ line9_unit (indep_line w_good (s2z "t")) = s2z "t"
@@ -376,5 +415,10 @@ Example C19_whole_file_hypotheses_inhabited :
   side_ok w_good = true
   /\ match impl_roundtrip w_good with Some r1 => side_ok (to_file r1) | None => false end = true
   /\ indep_name w_good = Some (s2z "t")
-  /\ match impl_roundtrip w_good with Some r1 => indep_name (to_file r1) | None => None end = Some (s2z "t").
+  /\ match impl_roundtrip w_good with Some r1 => indep_name (to_file r1) | None => None end = Some (s2z "t")
+  /\ vars_ok w_good (s2z "t") (tvar "t" "-9999" 16) = true
+  /\ match impl_roundtrip w_good with
+     | Some r1 => forallb no_nl (hdr_attrs (to_file r1) (s2z "-")) && attr_lines_ok (to_file r1)
+     | None => false
+     end = true.
 Proof. vm_compute. repeat split; reflexivity. Qed.
